@@ -463,3 +463,60 @@ let () = register "c11nodes" (fun line ->
       Printf.sprintf "%s@%s#%d:%d:%d:%d[%s]" (hex_of_bytes i.Dispatch.i_id) (hex_of_bytes i.Dispatch.i_addr)
         (L.length slots) lo hi sum (S.concat "," (L.sort compare (L.map ocaml_of_bytes i.Dispatch.i_replicas)))) insts in
     S.trim ("OK " ^ S.concat " " (L.sort compare ms)) ^ " load:ok")
+
+(* ---------------- C15 / C06: host set, health hysteresis, balancing ---------------- *)
+let c15_desc (i : coq_N) : coq_N * HostSet.htype =
+  let k = int_of_n i in
+  (n_of_int (1 + k mod 4), if k mod 8 < 4 then HostSet.Main else HostSet.Backup)
+let c15_u = L.map n_of_int [1; 2; 3; 4]
+let c15_objs = 16
+
+let () = register "c15" (fun line ->
+  let ids_of s = if s = "" then [] else L.map (fun x -> n_of_int (int_of_string x)) (S.split_on_char ',' s) in
+  let st = ref HostSet.empty in
+  let outs = L.map (fun op ->
+    let arg = S.sub op 1 (S.length op - 1) in
+    let o = (match Stdlib.String.get op 0 with
+      | 'a' -> HostSet.HAdd (ids_of arg) | 'r' -> HostSet.HRemove (ids_of arg) | 'p' -> HostSet.HReplaceAll (ids_of arg)
+      | 'h' -> HostSet.HMarkHealthy (L.hd (ids_of arg)) | 'u' -> HostSet.HMarkUnhealthy (L.hd (ids_of arg))
+      | _ -> failwith "bad op") in
+    st := HostSet.hstep c15_desc c15_u !st o;
+    let s = !st in
+    let all_ids = L.init c15_objs (fun i -> i) in
+    let str l = S.concat "," (L.map string_of_int l) in
+    let members = L.sort compare (L.map string_of_int (L.map int_of_n (HostSet.members c15_u s.HostSet.all))) in
+    "H" ^ str (L.map int_of_n s.HostSet.cache) ^ "/A" ^ S.concat "," members
+    ^ "/R" ^ str (L.filter (fun i -> s.HostSet.removed (n_of_int i)) all_ids)
+    ^ "/U" ^ str (L.filter (fun i -> not (s.HostSet.healthy (n_of_int i))) all_ids)) (S.split_on_char ' ' line) in
+  S.concat " " outs)
+
+let () = register "c15hc" (fun line ->
+  match S.split_on_char ' ' line with
+  | [rise; fall; results] ->
+    let r = n_of_int (int_of_string rise) and f = n_of_int (int_of_string fall) in
+    let st = ref { HostSet.flag = true; succ = N0; fail = N0 } in
+    let b = Buffer.create 16 in
+    S.iter (fun c -> st := HostSet.hc_step r f !st (c = '1'); Buffer.add_char b (if !st.HostSet.flag then 'H' else 'u')) results;
+    Buffer.contents b ^ " usable=" ^ (if !st.HostSet.flag then "1" else "0")
+  | _ -> failwith "bad c15hc case")
+
+let () = register "c06lb" (fun line ->
+  match S.split_on_char ' ' line with
+  | ["RoundRobinConcurrent"; _; _] -> "fair"
+  | [pol; conns; draws] ->
+    let cs = if conns = "" then [] else L.map (fun x -> n_of_dec x) (S.split_on_char ',' conns) in
+    let ds = Array.of_list (L.map n_of_dec (S.split_on_char ',' draws)) in
+    let n = L.length cs in
+    let picks = Array.length ds / 2 in
+    if n = 0 then S.concat "," (L.init picks (fun _ -> "nil")) else begin
+      let nn = n_of_int n in
+      let p = ref 0 in
+      let draw () = let d = ds.(!p mod Array.length ds) in incr p; d in
+      let ctr = ref N0 in
+      S.concat "," (L.init picks (fun _ ->
+        match pol with
+        | "RoundRobin" -> let (c, i) = HostSet.rr_pick !ctr nn in ctr := c; dec_of_n i
+        | "Random" -> dec_of_n (HostSet.rand_pick (draw ()) nn)
+        | _ -> let r1 = draw () in let r2 = draw () in dec_of_n (HostSet.least_pick r1 r2 cs)))
+    end
+  | _ -> failwith "bad c06lb case")
